@@ -135,7 +135,7 @@ class Rescaler:
         for k in ("time_step", "t_max", "sampling_interval"):
             if k in sd:
                 sd[k] = self.num(sd[k], L.D_TIME, o, n)
-        if "t_sample" in sd and o != n:
+        if "t_sample" in sd and o != n and isinstance(sd["t_sample"], list):
             sd["t_sample"] = [float(Fraction(v) * L.si_factor(o, L.D_TIME) / L.si_factor(n, L.D_TIME)) for v in sd["t_sample"]]
         sd["system"] = self.system(sd["system"], o, n)
         return sd
@@ -284,6 +284,8 @@ def member(sd, U1, nsteps):
     traj = eng.get_output()
     eng.finalize()
     out["traj_units"] = (L.sys_of(traj.data.units.sys), L.sys_of(traj.t.units.sys), L.sys_of(script.units_system))
+    out["dt_si"] = L.q_of(script.time_step)[0]
+    out["tmax_si"] = L.q_of(script.t_max)[0]
     mol = traj.data.convert("molecule")
     sec = traj.t.convert("s")
     ns, nc = traj.nspecies(), traj.ncells()
@@ -294,12 +296,7 @@ def member(sd, U1, nsteps):
 
 def gen_script_desc(ctx, rng, k):
     kind = "grid" if k % 2 == 0 else "graph"
-    desc, phys, info = L.gen_system(rng, kind=kind, max_cells=ctx.n(6, 12), chem_p=0.25, p_explicit=0.25)
-    if rng.random() < 0.3:
-        # an explicit bare state list in the system's units
-        us = resolve(desc.get("units"), L.DEFAULT_SYS)   # provisional; fixed below once the script units are known
-        desc["_state_nat"] = [rng.choice([0, 1, 2.5, 40, 0.75, 100.25]) for _ in range(phys["ns"] * phys["n"])]
-    sd = {"system": desc, "t_sample": [0], "sampling_policy": "on_iteration", "rng_seed": 1}
+    sd = {"t_sample": [0], "sampling_policy": "on_iteration", "rng_seed": 1}
     r = rng.random()
     if r < 0.5:
         us = L.rand_sys(rng)
@@ -309,18 +306,28 @@ def gen_script_desc(ctx, rng, k):
         us = L.DEFAULT_SYS
     else:
         us = L.DEFAULT_SYS
+    # the system inherits the script's units system wherever it declares none
+    desc, phys, info = L.gen_system(rng, kind=kind, max_cells=ctx.n(6, 12), chem_p=0.25, p_explicit=0.25, parent=us)
+    sd["system"] = desc
+    if rng.random() < 0.3:
+        # an explicit bare state list, in the system's units system
+        so = resolve(desc.get("units"), us)
+        desc["state"] = [float(Fraction(v) / L.si_factor(so, L.D_QTY))
+                         for v in [rng.choice([0, 1, 2.5, 40, 0.75, 100.25]) for _ in range(phys["ns"] * phys["n"])]]
     dt_nat = rng.choice([Fraction(1, 64), Fraction(1, 256), Fraction(1, 16)])
     sd["time_step"] = float(dt_nat / L.si_factor(us, L.D_TIME))
-    sd["t_max"] = float(100 * dt_nat / L.si_factor(us, L.D_TIME))
-    if "_state_nat" in desc:
-        so = resolve(desc.get("units"), us)
-        desc["state"] = [float(Fraction(v) / L.si_factor(so, L.D_QTY)) for v in desc.pop("_state_nat")]
+    if rng.random() < 0.4:
+        # sample times given as an explicit UnitArray in some other time unit; t_max defaults to the last one (2.5 dt)
+        tu = rng.choice(L.TIME)
+        sd["t_sample"] = {"value": [0.0, float(Fraction(5, 2) * dt_nat / L.si_time(tu))], "units": tu}
+    else:
+        sd["t_max"] = float(100 * dt_nat / L.si_factor(us, L.D_TIME))
     return sd, phys
 
 
 def run(ctx):
     rng = ctx.rng
-    npairs = ctx.n(40, 1500)
+    npairs = ctx.n(70, 1500)
     NSTEPS = 4
     ops, meta = [], []
     for k in range(npairs):
@@ -331,7 +338,7 @@ def run(ctx):
         R = Rescaler(rng)
         sdB = R.script(sdA)
         U1, U2 = L.rand_sys(rng), L.rand_sys(rng)
-        case = {"kind": "pair", "A": sdA, "B": sdB, "U1": list(U1), "U2": list(U2), "nsteps": NSTEPS}
+        case = {"kind": "pair", "A": sdA, "B": sdB, "U1": list(U1), "U2": list(U2), "nsteps": NSTEPS, "phys": C1.phys_dump(phys)}
         fp = (C1.fingerprint(sdA), C1.fingerprint(sdB))
         for lv in set(R.changed):
             ctx.count("level_changed_" + lv)
@@ -429,8 +436,23 @@ def compare_pair(ctx, a, b, phys, case, changed):
         ctx.violation("units:chem", "the chemostat map differs between the two descriptions", case, impl=b["chem"], expected=a["chem"])
         return
     orc = L.oracle_rate(phys, a["state"])
+    # ---- both against the physical system the generator wrote down (catches errors common to both members)
+    if "state" not in case["A"]["system"]:
+        xs = L.default_state_phys(phys)
+        for e, (x, y) in enumerate(zip(a["state"], xs)):
+            if not (close(float(x), y, rel=1e-9) if y != 0 else x == 0):
+                ctx.violation("units:state-physical", "default state entry %d is %r molecules, density x volume of the description gives %r" % (e, float(x), float(y)),
+                              dict(case, e=e), impl=float(x), expected=float(y))
+                return
     # ---- rate of change (each in its own requested output system)
     da, db = a["dstate"], b["dstate"]
+    if not (da and da[0] == "error"):
+        for e, x in enumerate(da):
+            exp, mag = (Fraction(0), Fraction(0)) if a["chem"][e] else orc[e]
+            if abs(x - exp) > Fraction(TOL) * max(abs(x), abs(exp), mag):
+                ctx.violation("units:dstate-physical", "rate of change of entry %d is %r molecule/s, the rate law on the described physical system gives %r" % (e, float(x), float(exp)),
+                              dict(case, e=e), impl=float(x), expected=float(exp))
+                return
     if (da and da[0] == "error") != (db and db[0] == "error"):
         ctx.violation("units:dstate-raises", "compute_dstatedt raises for one description only (%s / %s)" % (da[:2], db[:2]), case)
     elif not (da and da[0] == "error"):
@@ -448,6 +470,23 @@ def compare_pair(ctx, a, b, phys, case, changed):
         if du != su or tu != su:
             ctx.violation("units:output-system", "the trajectory of member %s is reported in %s / %s, the script's units system is %s" % (tag, du, tu, su), case)
             return
+    # the run completes when t > t_max (physical): number of recorded samples of `nsteps` iterations
+    for tag, m, sd in (("A", a, case["A"]), ("B", b, case["B"])):
+        ts = sd.get("t_sample")
+        if isinstance(ts, dict):
+            tmax_phys = Fraction(ts["value"][-1]) * L.si_time(ts["units"])
+            dt_phys = m["dt_si"]
+            if not close(float(m["tmax_si"]), tmax_phys, rel=1e-9):
+                ctx.violation("units:t-sample-unitarray", "t_sample given as %r %s: the script's t_max is %r s, the last sample time is %r s"
+                              % (ts["value"], ts["units"], float(m["tmax_si"]), float(tmax_phys)), dict(case, member=tag), impl=float(m["tmax_si"]), expected=float(tmax_phys))
+                return
+            ratio = tmax_phys / dt_phys
+            if abs(ratio - round(ratio)) > Fraction(1, 100):
+                exp_n = 1 + min(case["nsteps"], int(ratio) + 1)
+                if len(m["traj"]) != exp_n:
+                    ctx.violation("units:completion", "member %s recorded %d samples in %d iterations; with dt = %r s and t_max = %r s it must be %d"
+                                  % (tag, len(m["traj"]), case["nsteps"], float(dt_phys), float(tmax_phys), exp_n), dict(case, member=tag), impl=len(m["traj"]), expected=exp_n)
+                    return
     if len(a["traj"]) != len(b["traj"]):
         ctx.violation("units:traj-length", "different number of samples: %d vs %d" % (len(a["traj"]), len(b["traj"])), case)
         return
@@ -472,21 +511,23 @@ def replay(ctx, rec):
             return False, {"impl": "accepted"}
         except Exception as ex:  # noqa
             return True, {"impl": repr(ex)}
-    a = member(case["A"], tuple(case["U1"]), case["nsteps"])
-    b = member(case["B"], tuple(case["U2"]), case["nsteps"])
-    ok = len(a["state"]) == len(b["state"]) and all(close(float(x), y, rel=1e-12) if y != 0 else x == 0 for x, y in zip(a["state"], b["state"]))
-    ok = ok and a["chem"] == b["chem"]
+    class Rec:
+        def __init__(self):
+            self.v = []
+        def violation(self, key, what, case, impl=None, expected=None, replay_cmd=None):
+            self.v.append({"key": key, "what": what})
+        def case(self, *a, **k):
+            pass
+        def count(self, *a, **k):
+            pass
+    rec_ = Rec()
+    try:
+        a = member(case["A"], tuple(case["U1"]), case["nsteps"])
+        b = member(case["B"], tuple(case["U2"]), case["nsteps"])
+    except Exception as ex:  # noqa
+        return False, {"impl": "raised " + repr(ex)}
+    compare_pair(rec_, a, b, C1.phys_load(case["phys"]), case, [])
     da, db = a["dstate"], b["dstate"]
-    if not (da and da[0] == "error") and not (db and db[0] == "error"):
-        mags = [max(abs(x), abs(y)) for x, y in zip(da, db)]
-        big = max(mags + [Fraction(0)])
-        ok = ok and all(abs(x - y) <= Fraction(TOL) * max(abs(x), abs(y), big) for x, y in zip(da, db))
-    else:
-        ok = ok and (da and da[0] == "error") == (db and db[0] == "error")
-    scale = max([abs(v) for row in a["traj"] for v in row] + [1e-300])
-    ok = ok and len(a["traj"]) == len(b["traj"]) and all(abs(x - y) <= 1e-8 * max(abs(x), abs(y)) + 1e-9 * scale
-                                                         for ra, rb in zip(a["traj"], b["traj"]) for x, y in zip(ra, rb))
-    ok = ok and all(close(x, Fraction(y), Fraction(max(a["t"])), rel=TOL) for x, y in zip(a["t"], b["t"]))
-    return ok, {"state_A": [float(v) for v in a["state"]], "state_B": [float(v) for v in b["state"]],
-                "dstate_A": None if da and da[0] == "error" else [float(v) for v in da], "dstate_B": None if db and db[0] == "error" else [float(v) for v in db],
-                "traj_A": a["traj"], "traj_B": b["traj"], "t_A": a["t"], "t_B": b["t"]}
+    return not rec_.v, {"failures": rec_.v, "state_A": [float(v) for v in a["state"]], "state_B": [float(v) for v in b["state"]],
+                        "dstate_A": None if da and da[0] == "error" else [float(v) for v in da], "dstate_B": None if db and db[0] == "error" else [float(v) for v in db],
+                        "traj_A": a["traj"], "traj_B": b["traj"], "t_A": a["t"], "t_B": b["t"]}
